@@ -296,7 +296,8 @@ Definition import_mux_signal (st : istate) (mpos : nat) (msgid : Z) (id : Z) (dm
                    let e := sig_size es s + get_start_bit ds in if e >? acc then e else acc) muxed 0 in
   let mstart := get_start_bit dm in
   let msize := ds_size dm in
-  let gsize := if end_bit >? 0 then end_bit - mstart - msize else 0 in
+  (* without multiplexed signals the file does not tell the group size: the smallest one *)
+  let gsize := if end_bit >? 0 then end_bit - mstart - msize else 1 in
   let gcount := calc_value_from_size msize in
   if gcount <=? 0 then Err "group count not positive"
   else if gsize <=? 0 then Err "group size not positive"
